@@ -568,6 +568,89 @@ pub fn orswot_args(rng: &mut Rng, _r: usize) -> String {
     }
 }
 
+fn map_rm_args(rng: &mut Rng) -> String {
+    match rng.below(8) {
+        0..=4 => format!("rm {}", rng.below(3)),
+        5 | 6 => format!("rmread {}", rng.below(3)),
+        _ => {
+            let mut v = vec![];
+            for a in 0..3u64 {
+                if rng.chance(1, 2) {
+                    v.push((a, 1 + rng.below(4) as u64));
+                }
+            }
+            format!("rmctx {} {}", rng.below(3), clock_str(&v))
+        }
+    }
+}
+
+pub fn map_mvreg_args(rng: &mut Rng, _r: usize) -> String {
+    if rng.chance(2, 3) {
+        format!("up {} write {}", rng.below(3), 5 + 2 * rng.below(2))
+    } else {
+        map_rm_args(rng)
+    }
+}
+
+fn orswot_nested_args(rng: &mut Rng) -> String {
+    match rng.below(10) {
+        0..=4 => format!("add {}", rng.below(3)),
+        5 => format!("addall {}", nat_list(rng, 3, 2)),
+        6..=8 => format!("rm {}", rng.below(3)),
+        _ => format!("rmread {}", rng.below(3)),
+    }
+}
+
+pub fn map_orswot_args(rng: &mut Rng, _r: usize) -> String {
+    if rng.chance(3, 4) {
+        format!("up {} {}", rng.below(3), orswot_nested_args(rng))
+    } else {
+        map_rm_args(rng)
+    }
+}
+
+pub fn map_map_mvreg_args(rng: &mut Rng, _r: usize) -> String {
+    if rng.chance(3, 4) {
+        let inner = if rng.chance(3, 4) {
+            format!("up {} write {}", rng.below(2), 5 + 2 * rng.below(2))
+        } else {
+            format!("rm {}", rng.below(2))
+        };
+        format!("up {} {}", rng.below(2), inner)
+    } else {
+        map_rm_args(rng)
+    }
+}
+
+/// Map histories. `kind`: 0 = correspondence (everything, no oracle), 1 = key-level/oracle histories
+fn map_profile(out: &mut String, rng: &mut Rng, cases: usize, disc: Disc, merges: bool, extras: bool, end_oracle: bool, tys: &[&'static str]) {
+    let per = (cases + tys.len() - 1) / tys.len();
+    for ty in tys {
+        let mut h = Hist::new(ty, disc);
+        h.max_rep = 4;
+        h.max_steps = 22;
+        h.w_gen = 36;
+        h.w_dup = 6;
+        if merges {
+            h.w_merge = 10;
+            h.w_snap = 6;
+        }
+        if extras {
+            h.w_validate = 4;
+            h.w_vmerge = 3;
+            h.w_rr = 2;
+            h.w_eq = 3;
+        }
+        h.end_oracle = end_oracle;
+        let f: &mut dyn FnMut(&mut Rng, usize) -> String = match *ty {
+            "map_mvreg" => &mut map_mvreg_args,
+            "map_orswot" => &mut map_orswot_args,
+            _ => &mut map_map_mvreg_args,
+        };
+        hist_cases(out, rng, &h, per, f);
+    }
+}
+
 pub fn main(args: &[String]) {
     let profile = args.first().map(|s| s.as_str()).unwrap_or("");
     let seed: u64 = args.get(1).and_then(|s| s.parse().ok()).unwrap_or(1);
@@ -820,6 +903,13 @@ pub fn main(args: &[String]) {
                 }
             }
             hist_cases(&mut out, &mut rng, &h, cases, &mut orswot_args);
+        }
+        "map_corr" => {
+            // model/implementation correspondence for all three Map instantiations: every command kind, all disciplines
+            let tys = ["map_mvreg", "map_orswot", "map_map_mvreg"];
+            map_profile(&mut out, &mut rng, cases / 3 + 1, Disc::Causal, true, true, false, &tys);
+            map_profile(&mut out, &mut rng, cases / 3 + 1, Disc::Fifo, true, true, false, &tys);
+            map_profile(&mut out, &mut rng, cases / 3 + 1, Disc::Any, true, true, false, &tys);
         }
         "lww_conflict" => {
             // deliberately reused markers: validate_op / validate_merge must flag equal marker + different value, only
